@@ -157,7 +157,7 @@ def _run_structural(ctx):
              "a visited target can leave the visitor without its spec hash recorded: with hashing on it is still stale after `gwf touch`", visit.where,
              fmt_trace(nohash[0].state, visit.module) if nohash else None)
     roots_ok = any(isinstance(n, ast.For) and dotted(n.iter) == tw.positional_params()[0] and any(
-        isinstance(c.func, ast.Name) and c.func.id in vnames and dotted(c.args[0]) == dotted(n.target) for c in _calls(n)) for n in tw.node.body)
+        isinstance(c.func, ast.Name) and c.func.id in vnames and c.args and dotted(c.args[0]) == dotted(n.target) for c in _calls(n)) for n in walk_no_nested(tw.node))
     if wrappers and any(inner == visit.name for inner, _m in wrappers.values()):
         # every call must go through the memoised wrapper, never to the raw function
         raw = [c for f in [tw] + list(tw.nested.values()) for c in _calls(f.node) if isinstance(c.func, ast.Name) and c.func.id == visit.name]
